@@ -2,3 +2,4 @@ pub mod forget;
 pub mod probe;
 pub mod repo;
 pub mod index;
+pub mod backend;
